@@ -26,6 +26,19 @@ pub struct CompositeCase {
     pub enc_pick: u8,
     /// repeat some attack lines (ICCMA keeps them as duplicates)
     pub dup: Vec<u16>,
+    /// 0: plain disjoint union. Otherwise two more arguments u -> h are added and h attacks one argument of
+    /// every component: ONE connected component of 20-200 arguments. h is defeated by the grounded extension,
+    /// so for every semantics whose extensions are complete (all but STG) the answers are those of the union.
+    #[serde(default)]
+    pub hub: u8,
+}
+
+fn all_comps(case: &CompositeCase) -> Vec<AbsGraph> {
+    let mut v = case.comps.clone();
+    if case.hub > 0 {
+        v.push(AbsGraph { n: 2, att: vec![(0, 1)] });
+    }
+    v
 }
 
 struct Layout {
@@ -40,7 +53,7 @@ struct Layout {
 fn layout(case: &CompositeCase) -> Layout {
     let mut comp_of = vec![];
     let mut offs = vec![];
-    for (c, g) in case.comps.iter().enumerate() {
+    for (c, g) in all_comps(case).iter().enumerate() {
         offs.push(comp_of.len());
         for l in 0..g.n {
             comp_of.push((c, l));
@@ -67,9 +80,18 @@ fn label_of(case: &CompositeCase, lay: &Layout, node: usize) -> String {
 pub fn text(case: &CompositeCase) -> String {
     let lay = layout(case);
     let mut lines: Vec<(usize, usize)> = vec![];
-    for (c, g) in case.comps.iter().enumerate() {
+    let comps = all_comps(case);
+    for (c, g) in comps.iter().enumerate() {
         for (a, b) in &g.att {
             lines.push((lay.offs[c] + *a as usize, lay.offs[c] + *b as usize));
+        }
+    }
+    if case.hub > 0 {
+        let h = lay.offs[comps.len() - 1] + 1;
+        for (c, g) in case.comps.iter().enumerate() {
+            if g.n > 0 {
+                lines.push((h, lay.offs[c] + (case.hub as usize * 7 + c * 3) % g.n));
+            }
         }
     }
     for d in &case.dup {
@@ -104,7 +126,7 @@ struct Reference {
 }
 
 fn reference(case: &CompositeCase) -> Reference {
-    let fams: Vec<Fams> = case.comps.iter().map(|g| Fams::new(&G::new(g.n, &g.att_usize()))).collect();
+    let fams: Vec<Fams> = all_comps(case).iter().map(|g| Fams::new(&G::new(g.n, &g.att_usize()))).collect();
     let has_stable = fams.iter().all(|f| !f.st.is_empty());
     Reference { fams, has_stable }
 }
@@ -130,7 +152,9 @@ fn project<T: LabelType>(ext: &Ext<T>, af: &AAFramework<T>, index: &std::collect
 fn run_generic<T: LabelType>(which: Which, case: &CompositeCase, af: &AAFramework<T>, mk_label: &dyn Fn(usize) -> T, rec: &mut Rec) -> CheckResult {
     let lay = layout(case);
     let r = reference(case);
-    let ncomp = case.comps.len();
+    let ncomp = all_comps(case).len();
+    // with the hub, stage semantics (conflict-free based) is not compositional: skipped
+    let sems: Vec<Sem> = ALL_SEMS.iter().copied().filter(|s| case.hub == 0 || *s != Sem::STG).collect();
     let index: std::collections::HashMap<String, usize> = (0..lay.n).map(|i| (label_of(case, &lay, i), i)).collect();
     let id = match which {
         Which::C01 => "C01",
@@ -158,7 +182,7 @@ fn run_generic<T: LabelType>(which: Which, case: &CompositeCase, af: &AAFramewor
     let exists = |sem: Sem| sem != Sem::ST || r.has_stable;
     let ctx = || format!("{} arguments in {} components:\n{}", lay.n, ncomp, text(case));
     if which == Which::C01 {
-        for (k, sem) in ALL_SEMS.iter().enumerate() {
+        for (k, sem) in sems.iter().enumerate() {
             let sem = *sem;
             let enc = pick(Q::SE, sem, k);
             rec.eval();
@@ -195,7 +219,7 @@ fn run_generic<T: LabelType>(which: Which, case: &CompositeCase, af: &AAFramewor
         _ => vec![Q::DC, Q::DS],
     };
     for q in qs {
-        for (k, sem) in ALL_SEMS.iter().enumerate() {
+        for (k, sem) in sems.iter().enumerate() {
             let sem = *sem;
             let enc = pick(q, sem, k);
             for &a in &queried {
@@ -270,6 +294,9 @@ pub fn run(which: Which, case: &CompositeCase, rec: &mut Rec) -> CheckResult {
     let t = text(case);
     rec.class(&format!("composite-n-{:03}+", (lay.n / 25) * 25));
     rec.class(&format!("composite-components-{:02}+", (case.comps.len() / 5) * 5));
+    if case.hub > 0 {
+        rec.class("composite-single-connected-component-through-defeated-hub");
+    }
     if rec.nontrivial(&serde_json::to_string(case).unwrap_or_default()) {
         rec.sample(|| json!({"composite_framework_arguments": lay.n, "components": case.comps.len(), "format": if case.apx {"aspartix"} else {"iccma23"}, "text_head": t.chars().take(120).collect::<String>()}));
     }
